@@ -13,6 +13,10 @@ func Lookup(id string) sim.Property {
 		return C06{}
 	case "C05":
 		return C05{}
+	case "C09":
+		return C09{}
+	case "C10":
+		return C10{}
 	case "C08":
 		return C08{}
 	}
